@@ -81,6 +81,7 @@ class Alignment:
         self.const = {}
         self.static = {}
         self.unmatched_fns = set()
+        self.unmatched_closures = set()
         self._align_adts()
         self._align_fields()
         self._align_consts_statics()
@@ -278,6 +279,7 @@ class Alignment:
                     if cand in ref:
                         self.fn[k] = cand
         self.unmatched_fns = {k for k, f in cur.items() if f['kind'] != 'Closure' and k not in self.fn}
+        self.unmatched_closures = {k for k, f in cur.items() if f['kind'] == 'Closure' and k not in self.fn}
 
 
 def _simple_self(f):
